@@ -9,10 +9,16 @@
     that holds MarkerAccounts (key 0x01|address, the order GetAllAccounts walks), [mks_index] the
     marker module's registry 0x02|len|address => address that IterateMarkers walks (and looks every
     address up in the account store, panicking when it is not a marker account).
-    InitGenesis runs AFTER the auth module's: [pre] is what auth's InitGenesis put into the account
-    store (the auth genesis lists the marker accounts too); the registry is rebuilt from it, then
-    every marker of the marker genesis is written over the account (with the account number of the
-    existing account, else a fresh one: [next_acc] + the number of accounts created so far).
+    InitGenesis runs AFTER the auth module's.  What auth's InitGenesis left behind enters as
+      [pre]          the MarkerAccounts it put into the account store.  app/export.go replaces every
+                     marker account of the exported auth genesis by its bare BaseAccount, so for a
+                     genesis made by ExportAppStateAndValidators this is EMPTY; a hand-written
+                     genesis may list MarkerAccounts among the auth accounts;
+      [other_accnum] the account number of an account of another type stored at an address
+                     (the BaseAccount the export left in place of the marker account);
+      [next_acc]     the next free account number.
+    The registry is rebuilt from [pre], then every marker of the marker genesis is written over
+    whatever account is there (keeping that account's number, else taking a fresh one).
     ExportGenesis writes sequence 0 for every marker.
 
     Assumed / external: [marker_valid] (MarkerAccount.Validate), [nav_valid] (NetAssetValue.Validate),
@@ -87,19 +93,24 @@ Section Marker.
   Definition registry_of (pre : table marker) : list (key * key) :=
     flat_map (fun kr => if marker_valid (snd kr) then [(k_marker (mr_addr (snd kr)), mr_addr (snd kr))] else []) pre.
 
-  (** one marker of the marker genesis: account number, SetMarker (Validate or panic). *)
-  Definition marker_step (pre : table marker) (next_acc : N)
-             (acc : option (table marker * index)) (m : marker) : option (table marker * index) :=
+  (** one marker of the marker genesis: account number, SetMarker (Validate or panic); the
+      accumulator is (marker accounts, registry, number of fresh account numbers handed out). *)
+  Definition marker_step (other_accnum : key -> option N) (next_acc : N)
+             (acc : option (table marker * index * N)) (m : marker) : option (table marker * index * N) :=
     match acc with
     | None => None
-    | Some (accounts, ix) =>
-        let n := match tget (k_account (mr_addr m)) accounts with
-                 | Some ex => mr_accnum ex
-                 | None => (next_acc + N.of_nat (length accounts - length pre))%N
-                 end in
+    | Some (accounts, ix, fresh) =>
+        let '(n, fresh') :=
+          match tget (k_account (mr_addr m)) accounts with
+          | Some ex => (mr_accnum ex, fresh)
+          | None => match other_accnum (mr_addr m) with
+                    | Some n => (n, fresh)
+                    | None => ((next_acc + fresh)%N, (fresh + 1)%N)
+                    end
+          end in
         let m' := with_accnum m n in
         if marker_valid m' then
-          Some (tset (k_account (mr_addr m)) m' accounts, tset (k_marker (mr_addr m)) (mr_addr m) ix)
+          Some (tset (k_account (mr_addr m)) m' accounts, tset (k_marker (mr_addr m)) (mr_addr m) ix, fresh')
         else None
     end.
 
@@ -109,11 +120,13 @@ Section Marker.
   Definition nav_key (e : key * mnav) : option key :=
     if addr_ok (fst e) then Some (k_nav (fst e) (nv_denom (snd e))) else None.
 
-  Definition marker_import (pre : table marker) (next_acc : N) (g : marker_genesis) : option marker_state :=
+  Definition marker_import (pre : table marker) (other_accnum : key -> option N) (next_acc : N)
+             (g : marker_genesis) : option marker_state :=
     if forallb marker_valid (mkg_markers g) && forallb (fun grp => forallb nav_valid (snd grp)) (mkg_navs g) then
-      match fold_left (marker_step pre next_acc) (mkg_markers g) (Some (pre, tbuild (registry_of pre))) with
+      match fold_left (marker_step other_accnum next_acc) (mkg_markers g)
+                      (Some (pre, tbuild (registry_of pre), 0%N)) with
       | None => None
-      | Some (accounts, ix) =>
+      | Some (accounts, ix, _) =>
           match timport deny_key (fun e _ => Some (Some e)) (mkg_deny g),
                 timport nav_key (fun e _ => Some (Some e)) (flat_map nav_entries (mkg_navs g)) with
           | Some deny, Some navs =>
